@@ -12,6 +12,7 @@ import (
 	"bytes"
 	"encoding/json"
 	"fmt"
+	"io"
 	"runtime"
 	"sync"
 	"sync/atomic"
@@ -35,18 +36,34 @@ type viVec struct {
 // real-code adapters ---------------------------------------------------------
 
 func viEncode(w int, u uint64) (wbytes []byte, wn int64, werr error, wtb []byte, wtbn int, ln int) {
-	var buf bytes.Buffer
+	return viEncodeW(w, u, func(b *bytes.Buffer) io.Writer { return b })
+}
+
+// parkWriter is a writer that is slow to look at what it was handed (a pipe, a congested connection): it yields the
+// processor before it copies p
+type parkWriter struct{ b *bytes.Buffer }
+
+func (p parkWriter) Write(q []byte) (int, error) {
+	for i := 0; i < 3; i++ {
+		runtime.Gosched()
+	}
+	return p.b.Write(q)
+}
+
+func viEncodeW(w int, u uint64, mk func(*bytes.Buffer) io.Writer) (wbytes []byte, wn int64, werr error, wtb []byte, wtbn int, ln int) {
+	var bufb bytes.Buffer
+	buf := mk(&bufb)
 	tb := bytes.Repeat([]byte{0xAA}, 16) // the caller's buffer: what lies behind the returned count stays the caller's
 	var exact func()
 	if w == 2 {
 		v := pk.VarInt(int32(uint32(u)))
-		wn, werr = v.WriteTo(&buf)
+		wn, werr = v.WriteTo(buf)
 		wtbn = v.WriteToBytes(tb)
 		ln = v.Len()
 		exact = func() { v.WriteToBytes(make([]byte, ln)) }
 	} else {
 		v := pk.VarLong(int64(u))
-		wn, werr = v.WriteTo(&buf)
+		wn, werr = v.WriteTo(buf)
 		wtbn = v.WriteToBytes(tb)
 		ln = v.Len()
 		exact = func() { v.WriteToBytes(make([]byte, ln)) }
@@ -64,7 +81,7 @@ func viEncode(w int, u uint64) (wbytes []byte, wn int64, werr error, wtb []byte,
 	if p, _ := catch(exact); p && ln >= 1 && ln <= 10 { // a buffer of exactly Len() bytes must be enough
 		out = append([]byte{}, 0xEE)
 	}
-	return buf.Bytes(), wn, werr, out, wtbn, ln
+	return bufb.Bytes(), wn, werr, out, wtbn, ln
 }
 
 type viDecRes struct {
@@ -262,9 +279,13 @@ func viLimbs(w int, u uint64) []int {
 }
 
 func viEncEvent(w int, u uint64) viEncEv {
+	return viEncEventW(w, u, func(b *bytes.Buffer) io.Writer { return b })
+}
+
+func viEncEventW(w int, u uint64, mk func(*bytes.Buffer) io.Writer) viEncEv {
 	ev := viEncEv{K: "enc", Val: viLimbs(w, u), Mirror: ints(viMirror(w, u))}
 	p, _ := catch(func() {
-		wb, wn, werr, tb, tbn, ln := viEncode(w, u)
+		wb, wn, werr, tb, tbn, ln := viEncodeW(w, u, mk)
 		ev.Wbytes, ev.Wn, ev.Wtb, ev.Wtbn, ev.Len, ev.Err = ints(wb), int(wn), ints(tb), tbn, ln, werr != nil
 	})
 	if p {
@@ -427,6 +448,96 @@ func viRejudgeLine(env *vk.Env, w int, raw []byte) (sig, detail string, rejected
 	return sig, detail, !v.Accepted && v.Res.Violated != ""
 }
 
+// viConcurrent: the same calls made by 16 goroutines at once, each on its own writer / reader and its own values (the
+// statement quantifies over every call; writers that are slow to consume what they are handed are ordinary writers).
+func viConcurrent(env *vk.Env, w int, per int, salt string) *vk.Trace {
+	const G = 16
+	evs := make([][]any, G)
+	var wg sync.WaitGroup
+	for g := 0; g < G; g++ {
+		wg.Add(1)
+		go func(g int) {
+			defer wg.Done()
+			rng := newRand(env.Seed, fmt.Sprint("c05conc", salt, w, g))
+			for i := 0; i < per; i++ {
+				u := rng.Uint64() >> uint(rng.Intn(16*w))
+				if w == 2 {
+					u = uint64(uint32(u))
+				}
+				if i%2 == 0 {
+					evs[g] = append(evs[g], viEncEventW(w, u, func(b *bytes.Buffer) io.Writer { return parkWriter{b} }))
+				} else {
+					evs[g] = append(evs[g], viEncEvent(w, u))
+				}
+				evs[g] = append(evs[g], viDecEvent(w, append(viMirror(w, u), byte(g), byte(i)), i%3 == 0))
+			}
+		}(g)
+	}
+	wg.Wait()
+	tr := &vk.Trace{}
+	for _, l := range evs {
+		for _, e := range l {
+			tr.Add(e)
+		}
+	}
+	return tr
+}
+
+func viValidate(env *vk.Env, w int, tr *vk.Trace, label string) (rejected bool, raw []byte, inv string, ok bool) {
+	cfg := "VarInt_Trace.cfg"
+	if w == 4 {
+		cfg = "VarLong_Trace.cfg"
+	}
+	v, err := env.ValidateTrace(vk.TLCRun{Name: label, Module: "VarInt_Trace", Cfg: cfg, Workers: 4, Timeout: 20 * time.Minute}, "trace.ndjson", tr.Bytes())
+	if err != nil || (!v.Accepted && v.Res.Violated == "") {
+		env.Infra("trace validation %s failed: %v", label, err)
+		return false, nil, "", false
+	}
+	if v.Accepted {
+		return false, nil, "", true
+	}
+	line := vk.FindVar(v.Res.Output, "l")
+	lines := bytes.Split(bytes.TrimSpace(tr.Bytes()), []byte("\n"))
+	if line >= 1 && line <= len(lines) {
+		raw = lines[line-1]
+	}
+	return true, raw, v.Res.Violated, true
+}
+
+// viJudgeConcurrent: a rejection must show again in a fresh concurrent run (a schedule cannot be replayed exactly) before it
+// is reported; one that never shows again is inconclusive (exit 2), not a violation.
+func viJudgeConcurrent(env *vk.Env, w int, per int, tries int) {
+	first := true
+	for t := 0; t < tries; t++ {
+		tr := viConcurrent(env, w, per, fmt.Sprint(t))
+		rej, raw, inv, ok := viValidate(env, w, tr, fmt.Sprintf("B concurrent %s run %d", viName(w), t))
+		if !ok {
+			return
+		}
+		if !rej {
+			if first {
+				env.AddTraces(int64(tr.N))
+				env.AddEval(int64(tr.N))
+				return
+			}
+			continue
+		}
+		if !first {
+			var probe struct {
+				K string `json:"k"`
+			}
+			json.Unmarshal(raw, &probe)
+			env.Report(fmt.Sprintf("%s %s under concurrent calls on independent writers / readers rejected by VarInt_Trace", viName(w), probe.K),
+				fmt.Sprintf("%s violated by a call made while 15 other goroutines made calls of their own: %s", inv, vkTrunc(string(raw), 500)), map[string]any{"kind": "concurrent", "w": w})
+			return
+		}
+		first = false
+	}
+	if !first {
+		env.Infra("a rejection in the concurrent run of %s did not show again in %d further runs", viName(w), tries-1)
+	}
+}
+
 func lenClass(n, max int) string {
 	switch {
 	case n <= max:
@@ -533,7 +644,7 @@ func viSweep(env *vk.Env, stride uint64) {
 }
 
 func runC05(env *vk.Env) {
-	env.Cov.Rule = "TLC enumerates the decoder step machine over a boundary byte alphabet (all strings up to MaxLen+1 bytes, run-shaped beyond the free prefix for VarLong) and the encoder over all 2^p-1/2^p/2^p+1 patterns and complements; each state is one replay vector. Distinct/non-trivial = distinct (direction, width, decoder class, length) classes exercised. Trace lines are real calls judged by VarInt_Trace."
+	env.Cov.Rule = "TLC enumerates the decoder step machine over a boundary byte alphabet (all strings up to MaxLen+1 bytes, run-shaped beyond the free prefix for VarLong) and the encoder over all 2^p-1/2^p/2^p+1 patterns and complements; each state is one replay vector. Distinct/non-trivial = distinct (direction, width, decoder class, length) classes exercised. Trace lines are real calls judged by VarInt_Trace, made one at a time and by 16 goroutines at once on independent writers / readers (half of the writers yield before they look at what they were handed)."
 	env.Assume = []string{
 		"the exhaustive 2^32 sweep compares the real code with a Go mirror of VarInt.tla's Enc; the mirror is itself judged by TLC (field `mirror` of every enc event) on every run",
 		"readers returning (0, nil) are not generated",
@@ -575,6 +686,9 @@ func runC05(env *vk.Env) {
 			viJudgeTrace(env, w, viTrace(env, w, nv, fmt.Sprint("q", w)), "B "+viName(w))
 			env.AddEval(int64(2 * nv))
 		}
+		for _, w := range []int{2, 4} {
+			viJudgeConcurrent(env, w, 150, 4)
+		}
 		viSweep(env, 251)
 	} else {
 		var wg sync.WaitGroup
@@ -589,6 +703,9 @@ func runC05(env *vk.Env) {
 			}
 		}
 		wg.Wait()
+		for _, w := range []int{2, 4} {
+			viJudgeConcurrent(env, w, 1500, 4)
+		}
 		viSweep(env, 1)
 	}
 }
@@ -611,6 +728,8 @@ func replayC05(env *vk.Env, b []byte) {
 		res := env.MustSpec(vk.TLCRun{Name: "S", Module: "VarInt", Cfg: map[int]string{2: "VarInt_MC.cfg", 4: "VarLong_MC.cfg"}[f.Replay.Vec.W]})
 		_ = res
 		checkViVector(env, f.Replay.Vec)
+	case "concurrent":
+		viJudgeConcurrent(env, f.Replay.W, 400, 6)
 	case "traceline":
 		sig, detail, rej := viRejudgeLine(env, f.Replay.W, f.Replay.Line)
 		if rej {
